@@ -12,8 +12,8 @@
 //             on with coin 1} (quick: the two "on" variants only with coins 000 and 111)
 //           outcast: silent during Generate (so disqualified), library's honest code in Sign
 //           silent from its k-th own broadcast of Sign on, k = 0 (whole Sign) .. number of its broadcasts (quick: single F)
-//           wrong value in its k-th own broadcast / k-th private message of Sign, every k (value+1; thorough, single F:
-//             also value:=q)
+//           wrong value in its k-th own broadcast / k-th private message of Sign, every k (value+1; single F: also value-q, the
+//             other representative of the same residue; thorough, single F: also value:=q)
 //           wrong value in its k-th own broadcast / private message of Generate, every k (signer n-1; thorough: every single F)
 //   dss   worlds Generate, Sign(m0), Refresh, Sign(m1) [, Sign(m2) by the reduced signer set {1..n-1} with RBC(n-1,t')].
 //         (n,t): quick (4,1); thorough (4,1),(5,1),(7,2) ((7,2): Generate, Sign only).  Without faults: 1, 2 and 3 signatures.
@@ -316,9 +316,10 @@ static void family_nts(const Grp *G, bool thorough)
 					consider(C);
 				}
 			}
-			for (int v = 0; v < 2; v++)
+			for (int v = 0; v < 3; v++)
 			{
 				if (v == 1 && (!thorough || !single)) continue;
+				if (v == 2 && !single) continue;           // value - q: the other representative of the same residue (every single F)
 				for (unsigned pos = 0; pos < nb; pos++)
 				{
 					C.beh = Beh(), C.beh.kind = TAMPER_B, C.beh.pos = (int)pos, C.beh.variant = v;
@@ -471,9 +472,10 @@ static void family_dss(const Grp *G, bool thorough)
 					consider(K);
 				}
 			}
-			for (int v = 0; v < 2; v++)
+			for (int v = 0; v < 3; v++)
 			{
 				if (v == 1 && !(tamper_all && lastF)) continue;
+				if (v == 2 && !(thorough && lastF)) continue;   // value - q (same residue, other representative): thorough, signer n-1
 				for (unsigned pos = 0; pos < nb; pos++)
 				{
 					bool sel = tamper_all ? single : (thorough ? lastF : ((single && pos + 2 >= nb) || (lastF && (pos % 4 == 0 || pos == 13))));
@@ -566,15 +568,19 @@ static void family_dssmin(const Grp *G, bool thorough)
 			Cfg E = base;
 			E.F = Fs[f];
 			unsigned nb = W0.nb[E.F[0]], nu = W0.nu[E.F[0]];
-			for (unsigned pos = 0; pos < nb; pos++)
+			for (int v = 0; v < 3; v += 2)      // value + 1, and value - q (same residue, other representative; quick: signer n-1 only)
 			{
-				E.beh = Beh(), E.beh.kind = TAMPER_B, E.beh.pos = (int)pos;
-				consider(E);
-			}
-			for (unsigned pos = 0; pos < nu; pos++)
-			{
-				E.beh = Beh(), E.beh.kind = TAMPER_U, E.beh.pos = (int)pos;
-				consider(E);
+				if (v == 2 && !thorough && Fs[f][0] != (int)n - 1) continue;
+				for (unsigned pos = 0; pos < nb; pos++)
+				{
+					E.beh = Beh(), E.beh.kind = TAMPER_B, E.beh.pos = (int)pos, E.beh.variant = v;
+					consider(E);
+				}
+				for (unsigned pos = 0; pos < nu; pos++)
+				{
+					E.beh = Beh(), E.beh.kind = TAMPER_U, E.beh.pos = (int)pos, E.beh.variant = v;
+					consider(E);
+				}
 			}
 			for (unsigned pos = 1; pos <= nb; pos++)
 			{
